@@ -413,7 +413,7 @@ static void roundTripCase(long k)
     vh::count("truncation_points");
   }
   vh::evaluated(h, nItems > 0);
-  if (k % 3000 == 5)
+  if (k % 1000 < 2)
     vh::sample(vh::J().kv("case", desc).kv("bytes", (long long)total).kv("truncations", (long long)cuts.size()).str(), 3);
 }
 
@@ -531,7 +531,7 @@ static void fixedWriterCase(long k)
     }
   }
   vh::evaluated(h, true);
-  if (k % 3000 == 7)
+  if (k % 1000 == 5)
     vh::sample(vh::J().kv("case", desc).str(), 3);
 }
 
